@@ -5,6 +5,7 @@ From Coq Require Import List Arith Bool Lia.
 Import ListNotations.
 From KV Require Import Model.Placement Model.Kfac Model.KfacComm Proofs.KfacCommP.
 From KV Require Import Model.Neox Model.Shard Model.NeoxComm Proofs.NeoxCommP.
+From KV Require Import Proofs.KfacCommFlushP.
 From KV Require Import Model.Coll Proofs.CollP.   (* last: CollP.steps / finished, not the record field Kfac.steps *)
 
 Section C03.
@@ -116,6 +117,16 @@ Proof.
 Qed.
 
 
+(* state_dict() issues nothing (Save has no communication event) and memory_usage() only flushes; step() always ends with a
+   flush and a flush right after a flush issues nothing: at a step boundary both may be called on any subset of ranks *)
+Theorem queries_silent_at_step_boundary : forall c cap ls who bs hook acts incl,
+  snd (cstep c cap ls who (fst (cstep c cap ls who bs CFlush)) CFlush) = [] /\
+  (exists pre, cev_of hook Step acts = pre ++ [CFlush]) /\
+  cev_of hook (Save incl) acts = [].
+Proof.
+  intros. split; [apply flush_after_flush_silent_l|]. split; [apply step_ends_with_flush|reflexivity].
+Qed.
+
 (* ---- GPT-NeoX: the same on the pipe x data x model topology ----
    What rank r issues during training with GPTNeoXKFACPreconditioner (the all_gathers of sharded inputs / output gradients
    on its model-parallel group, the factor allreduces of the primaries on their data-parallel group and of everybody on
@@ -184,5 +195,6 @@ Print Assumptions no_deadlock.
 Print Assumptions every_execution_completes.
 Print Assumptions kfac_comm_proj.
 Print Assumptions kfac_never_stalls.
+Print Assumptions queries_silent_at_step_boundary.
 Print Assumptions neox_comm_proj.
 Print Assumptions neox_never_stalls.
